@@ -162,7 +162,7 @@ Lemma card_got_bound c n n' :
   | CardNone => n' = n
   | CardMax m => m = (-1)%Z /\ n' = n \/ (n' = n + 1 /\ n' <= m)%Z
   | CardExact m => (n' = n + 1 /\ n' <= m)%Z
-  | CardRange _ hi => hi = (-1)%Z /\ n' = n \/ (n' = n + 1 /\ n' <= hi)%Z
+  | CardRange _ hi => (n' = n + 1 /\ (hi = -1 \/ n' <= hi))%Z
   end.
 Proof.
   destruct c as [|m|m|lo hi]; cbn; intros H.
@@ -170,9 +170,17 @@ Proof.
   - destruct (Z.eqb_spec m (-1)); [inversion H; auto|].
     destruct (Z.ltb_spec m (n + 1)); [discriminate|]. inversion H; subst. right. lia.
   - destruct (Z.ltb_spec m (n + 1)); [discriminate|]. inversion H; subst. lia.
-  - destruct (Z.eqb_spec hi (-1)); [inversion H; auto|].
-    destruct (Z.ltb_spec hi (n + 1)); [discriminate|]. inversion H; subst. right. lia.
+  - destruct (Z.eqb_spec hi (-1)); [inversion H; subst; lia|].
+    destruct (Z.ltb_spec hi (n + 1)); [discriminate|]. inversion H; subst. lia.
 Qed.
+
+(** the pinned tree: a minimum with an unlimited maximum (cardinality_range( 2, -1)) was never enforced - one value
+    passed the end-of-line check; repaired ("fix: CardinalityRange counts ...") *)
+Lemma pinned_range_minimum_refuted :
+  (do n1 <- card_got_pinned (CardRange 2 (-1)) 0; card_end (CardRange 2 (-1)) n1) = Ok tt /\
+  (do n1 <- card_got (CardRange 2 (-1)) 0; card_end (CardRange 2 (-1)) n1) = Err ERuntime /\
+  (do n1 <- card_got (CardRange 2 (-1)) 0; do n2 <- card_got (CardRange 2 (-1)) n1; card_end (CardRange 2 (-1)) n2) = Ok tt.
+Proof. repeat split. Qed.
 
 (** an argument that is excluded by an argument used earlier is refused,
     whatever spelling is used for it *)
